@@ -25,6 +25,7 @@ func lastStringParamIndex(sig *types.Signature) int {
 }
 
 type threadCtx struct {
+	at     token.Pos // only definitions before this position reach the use
 	c      *Ctx
 	fam    *expFamily
 	fd     *ast.FuncDecl
@@ -55,6 +56,16 @@ func (c *Ctx) newThreadCtx(fam *expFamily, fd *ast.FuncDecl) *threadCtx {
 	return t
 }
 
+func (t *threadCtx) defsBefore(o types.Object) []ast.Expr {
+	var out []ast.Expr
+	for _, d := range t.defs[o] {
+		if d == nil || !t.at.IsValid() || d.Pos() < t.at {
+			out = append(out, d)
+		}
+	}
+	return out
+}
+
 // baseSources classifies where a base-path expression comes from: a set of tags
 // among "own", "id", "update", "remote"; any other source is reported as text.
 func (t *threadCtx) baseSources(e ast.Expr, depth int, out map[string]bool) {
@@ -70,7 +81,7 @@ func (t *threadCtx) baseSources(e ast.Expr, depth int, out map[string]bool) {
 		if o == t.base {
 			out["own"] = true
 		}
-		ds := t.defs[o]
+		ds := t.defsBefore(o)
 		if len(ds) == 0 && o != t.base {
 			out["?"+x.Name] = true
 			return
@@ -130,7 +141,7 @@ func (t *threadCtx) loaderSources(e ast.Expr, depth int, out map[string]bool) {
 		if o == t.loader {
 			out["own"] = true
 		}
-		ds := t.defs[o]
+		ds := t.defsBefore(o)
 		if len(ds) == 0 && o != t.loader {
 			out["?"+x.Name] = true
 		}
@@ -212,6 +223,7 @@ func ruleThreadArgs(c *Ctx) {
 			edge := fn + "→" + funcDisplay(g)
 			ord[edge]++
 			key := fmt.Sprintf("%s#%d", edge, ord[edge])
+			t.at = call.Pos()
 			if b := c.baseArgOf(call); b != nil {
 				src := map[string]bool{}
 				t.baseSources(b, 0, src)
@@ -241,6 +253,7 @@ func ruleThreadArgs(c *Ctx) {
 			n++
 			c.saw(fn)
 			key := fmt.Sprintf("%s:transitiveResolver#%d", fn, n)
+			t.at = call.Pos()
 			src := map[string]bool{}
 			t.baseSources(call.Args[0], 0, src)
 			bad := unknownSources(src)
@@ -300,6 +313,7 @@ func ruleSwitchOnFollow(c *Ctx) {
 				continue
 			}
 			later++
+			t.at = call.Pos()
 			ls, bs := map[string]bool{}, map[string]bool{}
 			if l := c.loaderArgOf(fam, call); l != nil {
 				t.loaderSources(l, 0, ls)
